@@ -251,6 +251,11 @@ func (dsc *dataStoreCommand) setRange(keyName string, offset int, substring stri
 		}
 		expiration = time.Time(oldSk.expiresAt)
 	} else {
+		if substring == "" {
+			// nothing to write: a missing key stays missing
+			result.data = respInt(0)
+			return
+		}
 		setBytes = []byte{}
 	}
 
